@@ -22,6 +22,6 @@ ASSUMPTIONS = [
     "State methods are used through their C01 contracts (AState in contracts/samplers.py applies their postconditions)",
     "row-locality of derived values carrying the individual axis (C07) for the partial-revert lemma",
     "the latent variable name is a representative constant 'VAR' (the sampler code uses the name only to form the names of the regularity nodes)",
-    "mixture models (2-D regularity with softmax weights) are outside these contracts",
+    "mixture model: softmax as exp / sum of exp (exp uninterpreted), 2 clusters",
 ]
-NOT_DECIDED = ["mixture branch of IndividualGibbsSampler.sample (nll_regul_ind_sum_ind of rank 2)"]
+NOT_DECIDED = []
